@@ -31,7 +31,7 @@ m = {
         "add_only": True,
     },
     "engines": [{"name": "lean4-model+correspondence", "path": "lean/", "serves_properties": sorted(CLAIMED),
-                 "kind_free_text": "Lean 4 theorems about an executable model (lean/PyomaVerif), tied to /repo on every run by a differential correspondence harness (harness/) and, for C09/C10 sequencing, a Python-AST to Lean translator"}],
+                 "kind_free_text": "Lean 4 theorems about an executable model (lean/PyomaVerif), tied to /repo on every run by a differential correspondence harness (harness/) and by seven fail-closed Python-AST to Lean translators (harness/translate_*.py, run by translate_all.py): hard-criteria statements of the run() bodies, call-site wiring of the class layer, defaults of run parameters / methods / functions, stores and calls of the setup layer and algorithm protocol, call sites inside functions/fdd.py, the dialog's event and state-writer tables, the geometry entry points - obligations over the regenerated tables are kernel-evaluated theorems"}],
     "checks": checks,
     "notes": "exit 0 = held; exit 1 + VIOLATION line; exit 2 = infrastructure failure (never a VIOLATION). known_findings.json lists recorded findings and fixed defects.",
 }
